@@ -210,5 +210,12 @@ def het_params(draw, kind, Dx, Dy, Da, Dk, wscale=1.0, kappa=30.0):
     G = draw(spd(1, Da, kappa=kappa, lam_lo=0.5, lam_hi=1.5))
     A = G[:, :Dy, :]  # full row rank, cond(AA') bounded
     W = draw(arr((Dk, Dx + 1), -1.0, 1.0)) * wscale
+    # offsets are non-zero (stated domain of C16/C17); scaling by wscale applies to the input weights only below
+    W = W.copy()
+    W[:, 0] = np.where(W[:, 0] >= 0, W[:, 0] + 0.05, W[:, 0] - 0.05)
+    if kind in ("heaviside", "relu") and wscale > 0:
+        # the step / rectified-linear classes need a non-zero weight vector (h must have positive variance)
+        W = W.copy()
+        W[:, 1] = np.where(W[:, 1] >= 0, W[:, 1] + 0.05 * wscale, W[:, 1] - 0.05 * wscale)
     return {"kind": kind, "Dx": Dx, "Dy": Dy, "Da": Da, "Dk": Dk, "wscale": wscale,
             "M": draw(arr((1, Dy, Dx), -1.5, 1.5)), "b": draw(arr((1, Dy))), "A": A, "W": W}
